@@ -527,7 +527,7 @@ class Beam(_Simu):
             options.extend(["N", "Ty", "Tz", "Mx", "My", "Mz"])
             options.extend(["Sxx", "Syy", "Szz", "Syz", "Sxz", "Sxy"])
 
-        options.extend(["Srain", "Stress"])
+        options.extend(["Strain", "Stress"])
 
         return options
 
@@ -617,11 +617,18 @@ class Beam(_Simu):
             values = Sigma_e[:, index]
 
         elif result in ["ux'", "rx'", "ry'", "rz'"]:
-            coef = 1 if result == "Exx" else 1 / 2
-
             Epsilon_e = self._Calc_Epsilon_e_pg(self.displacement).mean(1)
             index = self._indexResult(result)
-            values = Epsilon_e[:, index] * coef
+            values = Epsilon_e[:, index]
+
+        elif result == "Strain":
+            # generalised strains, see _Calc_Epsilon_e_pg
+            values = np.asarray(self._Calc_Epsilon_e_pg(self.displacement).mean(1))
+
+        elif result == "Stress":
+            # see _Calc_Sigma_e_pg
+            Epsilon_e_pg = self._Calc_Epsilon_e_pg(self.displacement)
+            values = np.asarray(self._Calc_Sigma_e_pg(Epsilon_e_pg).mean(1))
 
         else:
             Terminal.MyPrintError(f"The result '{result}' is not implemented yet.")
@@ -637,6 +644,19 @@ class Beam(_Simu):
         # "Beam3D" : ["ux", "uy", "uz", "rx", "ry", "rz" "fx","fy","fz","cx","cy"]
 
         dim = self.dim
+
+        if result.endswith("'"):
+            # columns of _Calc_Epsilon_e_pg
+            names = {1: ["ux'"], 2: ["ux'", "rz'"], 3: ["ux'", "rx'", "ry'", "rz'"]}
+            return names[dim].index(result)
+        elif result in ["Sxx", "Syy", "Szz", "Syz", "Sxz", "Sxy"]:
+            # columns of _Calc_Sigma_e_pg
+            names = {
+                1: ["Sxx"],
+                2: ["Sxx", "Syy", "Sxy"],
+                3: ["Sxx", "Syy", "Szz", "Syz", "Sxz", "Sxy"],
+            }
+            return names[dim].index(result)
 
         if "ux" in result or "fx" in result:
             return 0
